@@ -173,7 +173,7 @@ fn vp_native_head_hostile_inputs_no_panic_body() {
     // leading zeros and signs, twenty and more digits), under every framing and for every way of reading the body
     let lengths = ["18446744073709551615", "18446744073709551616", "18446744073709551625", "99999999999999999999", "100000000000000000000", "00000000000000000000018446744073709551616",
         "+18446744073709551616", "-1", "9223372036854775807", "9223372036854775808", "4294967295", "4294967296", "184467440737095516150", "1844674407370955161", "0x10", "1e3", ""];
-    for cl in lengths { for extra in ["", "Content-Encoding: gzip\r\n", "Connection: close\r\n"] { for method in [Method::GET, Method::HEAD] { for reader in 0..3 {
+    for cl in lengths.iter().copied().chain(["abc", "3, 4", "5\r\nContent-Length: 6", "\u{e9}"]) { for extra in ["", "Content-Encoding: gzip\r\n", "Connection: close\r\n", "Transfer-Encoding: chunked\r\n", "Transfer-Encoding: chunked\r\nContent-Encoding: gzip\r\n", "Transfer-Encoding: gzip, chunked\r\n"] { for method in [Method::GET, Method::HEAD] { for reader in 0..3 {
         let w = format!("HTTP/1.1 200 OK\r\nContent-Length: {}\r\n{}\r\nsome body bytes", cl, extra).into_bytes();
         let req = PreparedRequest::new(method.clone(), "http://a.test/");
         let r = std::panic::catch_unwind(std::panic::AssertUnwindSafe(|| { if let Ok(mut resp) = parse_response(BaseStream::mock(w), &req, req.url()) {
